@@ -14,6 +14,7 @@ def Schema.postFree : Schema → Bool
   | .prim p => p.posts.isEmpty
   | .slice elem sm => sm.posts.isEmpty && elem.postFree
   | .ptr elem _ _ => elem.postFree
+  | .pre _ inner => inner.postFree
   | .struct fs _ posts => posts.isEmpty && fs.postFree
   | .custom _ => true
 def Fields.postFree : Fields → Bool
@@ -204,6 +205,36 @@ theorem proc_local (env : Env) (m : Mode) :
       | none => simp [St.app, emit]
       | some x => by_cases hp : c.test.pred x = true <;> simp [hp, St.app, emit]
     · by_cases hp : c.test.pred d = true <;> simp [hp, St.app, emit]
+  | .pre ps inner, hp, tag, path, v, d => by
+    intro st
+    simp only [Schema.postFree] at hp
+    unfold proc
+    cases m <;> simp only
+    · cases ps.accept v
+      · simp [St.app, emit]
+      · simp only [↓reduceIte]
+        rcases hr : ps.run v with ⟨v', e⟩
+        cases e with
+        | none =>
+          simp only
+          have ih : ∀ s, proc env .parse inner tag path v' d s =
+              ((proc env .parse inner tag path v' d {}).1, s.app (proc env .parse inner tag path v' d {}).2) :=
+            proc_local env .parse inner hp tag path v' d
+          rw [ih { st with log := st.log ++ [⟨.pre, ps.id, render path, .custom v⟩] },
+              ih { log := ([] : List Event) ++ [⟨.pre, ps.id, render path, .custom v⟩] }]
+          simp [St.app, List.append_assoc]
+        | some e => simp [St.app, emit]
+    · rcases hr : ps.runD d with ⟨d', e⟩
+      cases e with
+      | none =>
+        simp only
+        have ih : ∀ s, proc env .validate inner tag path v d' s =
+            ((proc env .validate inner tag path v d' {}).1, s.app (proc env .validate inner tag path v d' {}).2) :=
+          proc_local env .validate inner hp tag path v d'
+        rw [ih { st with log := st.log ++ [⟨.pre, ps.id, render path, d⟩] },
+            ih { log := ([] : List Event) ++ [⟨.pre, ps.id, render path, d⟩] }]
+        simp [St.app, List.append_assoc]
+      | some e => simp [St.app, emit]
 theorem procKey_local (env : Env) (m : Mode) :
     ∀ (fs : Fields), fs.postFree = true → ∀ (key : String) (tag : Option String) (prov : Engine.Prov) (path : List String) (d : DVal),
       Local (fun st => procKey env m fs key tag prov path d st)
